@@ -1,0 +1,187 @@
+//! Model of the `regex` engine for the pattern class that `LazyRegex` builds from rule
+//! patterns made of escaped literal text and parenthesised groups:
+//!
+//!   pattern := ".*" | ['^'] item* ['$']
+//!   item    := literal | '\' punct | '.' | '(' ['?:'] item* ')'
+//!
+//! Groups are transparent (no alternation / quantifiers inside the class).  A pattern that is
+//! outside the class (unbalanced parentheses, dangling backslash, a quantifier, alternation, a
+//! character class, an escaped alphanumeric, non-ASCII text) is rejected with `Err`, exactly as
+//! the real engine rejects unbalanced parentheses and a dangling backslash; the rest of the
+//! rejected patterns are simply outside the model (see /verif/DESIGN.md).  ASCII only.
+#[derive(Debug)]
+pub struct Regex {
+    pat: String,
+    ci: bool,
+}
+#[derive(Debug)]
+pub struct Error;
+pub struct RegexBuilder {
+    pat: String,
+    ci: bool,
+}
+
+pub struct Match<'h> {
+    s: &'h str,
+}
+impl<'h> Match<'h> {
+    pub fn as_str(&self) -> &'h str {
+        self.s
+    }
+}
+pub struct Captures<'h> {
+    _h: &'h str,
+}
+impl<'h> Captures<'h> {
+    pub fn name(&self, _name: &str) -> Option<Match<'h>> {
+        None
+    }
+}
+
+impl RegexBuilder {
+    pub fn new(p: &str) -> Self {
+        RegexBuilder { pat: p.to_string(), ci: false }
+    }
+    pub fn case_insensitive(&mut self, yes: bool) -> &mut Self {
+        self.ci = yes;
+        self
+    }
+    pub fn build(&self) -> Result<Regex, Error> {
+        if valid(self.pat.as_bytes()) {
+            Ok(Regex { pat: self.pat.clone(), ci: self.ci })
+        } else {
+            Err(Error)
+        }
+    }
+}
+
+fn is_alnum(c: u8) -> bool {
+    (c >= b'a' && c <= b'z') || (c >= b'A' && c <= b'Z') || (c >= b'0' && c <= b'9')
+}
+
+pub fn valid(p: &[u8]) -> bool {
+    if p.len() == 2 && p[0] == b'.' && p[1] == b'*' {
+        return true;
+    }
+    let mut depth: i32 = 0;
+    let mut i = 0;
+    while i < p.len() {
+        let c = p[i];
+        if c >= 128 {
+            return false;
+        }
+        if c == b'\\' {
+            if i + 1 >= p.len() || is_alnum(p[i + 1]) || p[i + 1] >= 128 {
+                return false;
+            }
+            i += 2;
+            continue;
+        }
+        if c == b'(' {
+            depth += 1;
+            if i + 1 < p.len() && p[i + 1] == b'?' {
+                if i + 2 < p.len() && p[i + 2] == b':' {
+                    i += 3;
+                    continue;
+                }
+                return false;
+            }
+        } else if c == b')' {
+            if depth == 0 {
+                return false;
+            }
+            depth -= 1;
+        } else if c == b'*' || c == b'+' || c == b'?' || c == b'|' || c == b'[' || c == b']' || c == b'{' || c == b'}' {
+            return false;
+        } else if c == b'^' && i != 0 {
+            return false;
+        } else if c == b'$' && i + 1 != p.len() {
+            return false;
+        }
+        i += 1;
+    }
+    depth == 0
+}
+
+fn lower(c: u8, ci: bool) -> u8 {
+    if ci && c >= b'A' && c <= b'Z' { c + 32 } else { c }
+}
+
+impl Regex {
+    pub fn new(p: &str) -> Result<Regex, Error> {
+        RegexBuilder::new(p).build()
+    }
+
+    /// Does the item sequence p[start..] match h starting exactly at offset j?
+    fn match_at(&self, start: usize, h: &[u8], mut j: usize) -> bool {
+        let p = self.pat.as_bytes();
+        let mut i = start;
+        while i < p.len() {
+            let c = p[i];
+            if c == b'$' && i + 1 == p.len() {
+                return j == h.len();
+            }
+            if c == b'(' {
+                i += 1;
+                if i + 1 < p.len() && p[i] == b'?' && p[i + 1] == b':' {
+                    i += 2;
+                }
+                continue;
+            }
+            if c == b')' {
+                i += 1;
+                continue;
+            }
+            if c == b'\\' {
+                if j >= h.len() || lower(h[j], self.ci) != lower(p[i + 1], self.ci) {
+                    return false;
+                }
+                i += 2;
+                j += 1;
+                continue;
+            }
+            if c == b'.' {
+                if j >= h.len() || h[j] == b'\n' {
+                    return false;
+                }
+                i += 1;
+                j += 1;
+                continue;
+            }
+            if j >= h.len() || lower(h[j], self.ci) != lower(c, self.ci) {
+                return false;
+            }
+            i += 1;
+            j += 1;
+        }
+        true
+    }
+
+    pub fn is_match(&self, hay: &str) -> bool {
+        let p = self.pat.as_bytes();
+        let h = hay.as_bytes();
+        if p.len() == 2 && p[0] == b'.' && p[1] == b'*' {
+            return true;
+        }
+        if !p.is_empty() && p[0] == b'^' {
+            return self.match_at(1, h, 0);
+        }
+        let mut s = 0;
+        while s <= h.len() {
+            if self.match_at(0, h, s) {
+                return true;
+            }
+            s += 1;
+        }
+        false
+    }
+
+    /// Captures are outside the model: no capture is ever reported.
+    pub fn captures<'h>(&self, _hay: &'h str) -> Option<Captures<'h>> {
+        None
+    }
+
+    pub fn capture_names(&self) -> std::iter::Empty<Option<&str>> {
+        std::iter::empty()
+    }
+}
